@@ -8,7 +8,7 @@ from __future__ import annotations
 import ast
 from typing import Any, Dict, List, Tuple
 
-from .env import Env, normalise_exc
+from .env import Env, Runaway, normalise_exc
 from .kernel import Chooser, Horizon
 
 NOOPS = (ast.Pass, ast.Break, ast.Continue)
@@ -67,6 +67,8 @@ class Compiled:
             out = self._run(ns)
         except Horizon:
             out = ("cut",)
+        except Runaway:
+            out = ("exc", "Runaway(non-terminating)")
         except Exception as e:  # noqa: BLE001
             out = ("exc", normalise_exc(e))
         return tuple(env.log), out
